@@ -142,6 +142,18 @@ Definition queue_monitor (cap shards : Z) (steps : list qstep) : bool :=
   let isnil := (cap <=? 0)%Z || (shards <=? 0)%Z in
   q_monitor isnil (Z.to_nat cap) (repeat [] (Z.to_nat shards)) steps.
 
+(* the observations the model itself produces for a history of calls *)
+Definition dummy_snap : qsnap := QSnap [] [] [] [] (-1)%Z 0 0.
+
+Fixpoint q_model_steps (q : option pq) (ops : list qop) : list qstep :=
+  match ops with
+  | [] => []
+  | o :: r =>
+      let '(q', ob) := q_model_step q o in
+      QStep o ob (match q' with Some q1 => snap_of q1 | None => dummy_snap end)
+      :: q_model_steps q' r
+  end.
+
 (* =================================================================== shard *)
 
 Definition shard_row := (N * N * bytes * N)%type.
@@ -350,22 +362,28 @@ Definition enq_result (r : rtplan) : N := snd (rt_enq r).
 Definition rt_accepted (r : rtplan) : bool := enq_result r =? 0.
 Definition rt_has_events (r : rtplan) : bool := negb (rt_first r =? 0).
 
-Definition same_channel (a b : rtplan) : bool :=
-  (e_chtype (p_event (rt_plan a)) =? e_chtype (p_event (rt_plan b)))
-  && bytes_eqb (e_chid (p_event (rt_plan a))) (e_chid (p_event (rt_plan b))).
+(* the ticket data of one plan the ordering clause looks at *)
+Record ptimes := PT {
+  pt_acc : bool; pt_has : bool; pt_ct : N; pt_ch : bytes;
+  pt_es : N; pt_ee : N; pt_first : N; pt_last : N }.
 
-(* plans of one channel enqueued one after the other are processed one after the other *)
-Definition chan_pair_ok (a b : rtplan) : bool :=
-  if rt_accepted a && rt_accepted b && rt_has_events a && rt_has_events b
-     && same_channel a b && (enq_end a <? enq_start b)
-  then rt_last a <? rt_first b else true.
+Definition rt_times (r : rtplan) : ptimes :=
+  PT (rt_accepted r) (rt_has_events r) (e_chtype (p_event (rt_plan r))) (e_chid (p_event (rt_plan r)))
+     (enq_start r) (enq_end r) (rt_first r) (rt_last r).
+
+(* plans of one channel enqueued one after the other are processed one after
+   the other: every port call of the first precedes every port call of the second *)
+Definition times_pair_ok (a b : ptimes) : bool :=
+  if pt_acc a && pt_acc b && pt_has a && pt_has b
+     && (pt_ct a =? pt_ct b) && bytes_eqb (pt_ch a) (pt_ch b) && (pt_ee a <? pt_es b)
+  then pt_last a <? pt_first b else true.
 
 (* mechanism (not part of the monitor): two plans of one shard never overlap *)
 Definition shard_pair_disjoint (a b : rtplan) : bool :=
   if rt_accepted a && rt_accepted b && rt_has_events a && rt_has_events b && (rt_shard a =? rt_shard b)
   then (rt_last a <? rt_first b) || (rt_last b <? rt_first a) else true.
 
-Fixpoint all_pairs (f : rtplan -> rtplan -> bool) (l : list rtplan) : bool :=
+Fixpoint all_pairs {A} (f : A -> A -> bool) (l : list A) : bool :=
   match l with
   | [] => true
   | a :: r => forallb (fun b => f a b && f b a) r && all_pairs f r
@@ -383,7 +401,7 @@ Definition rt_plan_monitor (c : cfg) (r : rtplan) : bool :=
   else no_events (rt_obs r) && is_nil (rt_terminal r).
 
 Definition rt_monitor (c : cfg) (plans : list rtplan) : bool :=
-  forallb (rt_plan_monitor c) plans && all_pairs chan_pair_ok plans.
+  forallb (rt_plan_monitor c) plans && all_pairs times_pair_ok (map rt_times plans).
 
 (* terminal label of an error class: 1,2,3 -> "error" *)
 Definition label_of_class (cl : N) : N := if (1 <=? cl) && (cl <=? 3) then 1 else cl.
